@@ -585,6 +585,7 @@ class Explorer:
         self.pc = []
         self.steps = 0
         self.inputs = {}        # name -> z3 const (in declaration order)
+        self._keep = []         # keeps decided terms alive (z3 ids are reused after collection)
         self.decided = {}       # id of a branch condition decided on this path -> outcome
         self.radicals = {}      # radicand key -> value of its square root
         self.radical_defs = {}  # id of radical const -> (radical const, radicand term)
@@ -643,6 +644,7 @@ class Explorer:
             return hit
         r = self._branch(t)
         self.decided[k] = r
+        self._keep.append(t)
         return r
 
     def _branch(self, t):
@@ -757,15 +759,15 @@ class Explorer:
         if x.v is not None:
             return sqrt(x.v)
         t = z3.simplify(_toreal(x.t, x.is_int))
-        key = t.get_id()
+        key = t.get_id()        # ids are only unique among live terms: the term is kept alive in the table
         hit = self.radicals.get(key)
         if hit is not None:
-            return hit
+            return hit[0]
         from . import nf
         sq = nf.perfect_square_root(t)
         if sq is not None:
             out = abs(_wrap(sq, False))
-            self.radicals[key] = out
+            self.radicals[key] = (out, t)
             return out
         q, core, ckey = Fraction(1), t, None
         sp = nf.split_square_content(t)
@@ -773,8 +775,8 @@ class Explorer:
             q, core, ckey = sp
             hit = self.radicals.get(ckey)
             if hit is not None:
-                out = hit if q == 1 else q * hit
-                self.radicals[key] = out
+                out = hit[0] if q == 1 else q * hit[0]
+                self.radicals[key] = (out, t)
                 return out
         k = len(self.radical_defs)
         r = z3.Real("sqrt!%d" % k)
@@ -784,9 +786,9 @@ class Explorer:
         rs = SReal(r)
         self.radical_defs[r.get_id()] = (r, core)
         if ckey is not None:
-            self.radicals[ckey] = rs
+            self.radicals[ckey] = (rs, core)
         out = rs if q == 1 else q * rs
-        self.radicals[key] = out
+        self.radicals[key] = (out, t)
         return out
 
     # ---- inputs
